@@ -108,7 +108,8 @@ package runner
 //@   ensures [writes_at_most_once] forall w1 int, w2 int :: old(tlen()) <= w1 && w1 < tlen() && old(tlen()) <= w2 && w2 < tlen()
 //@        && evIs(w1, "os.WriteFile") && evIs(w2, "os.WriteFile") ==> w1 == w2
 //@   ensures [success_iff_written] (result == nil) <==> (exists w int :: old(tlen()) <= w && w < tlen() && evIs(w, "os.WriteFile") && evErr(w) == nil)
-//@   ensures [failure_is_reported_unchanged] result != nil ==> (exists k int :: old(tlen()) <= k && k < tlen() && result == evErr(k))
+//@   ensures [failure_is_the_builders_or_the_writers] result != nil ==> (exists k int :: old(tlen()) <= k && k < tlen() && evErr(k) != nil
+//@        && (evIs(k, "internal/cmd/runner:codeBuilder.Build") || evIs(k, "os.WriteFile")))
 //@   ensures [output_untouched] *o == old(*o)
 
 // C09 / C10: the files of one pattern are returned cleaned and in lexical order of the cleaned paths.
@@ -136,13 +137,13 @@ package runner
 // root: evaluated, not proved).
 //@ func (*Printer).Indent
 //@   property C12 C10
-//@   modifies p.indents
-//@   ensures [pushed] len(p.indents) == len(old(p.indents)) + 1
+//@   modifies *p
+//@   ensures [pushed] len(p.indents) == len(old(p.indents)) + 1 && p.writer == old(p.writer)
 //@ func (*Printer).EndIndent
 //@   property C12 C10
 //@   requires [balanced] len(p.indents) > 0
-//@   modifies p.indents
-//@   ensures [popped] len(p.indents) == len(old(p.indents)) - 1
+//@   modifies *p
+//@   ensures [popped] len(p.indents) == len(old(p.indents)) - 1 && p.writer == old(p.writer)
 //@ func (*Printer).Println
 //@   property C12 C10
 //@   requires [wired] p.writer != nil
@@ -216,10 +217,10 @@ package runner
 //@   ensures [writes_to_the_given_writer] result != nil && result.writer == w && len(result.indents) == 0
 //@ func NewRunner
 //@   property C10 C16
-//@   ensures [keeps_the_steps_in_order] result != nil && result.steps == steps
+//@   ensures [keeps_the_steps_in_order] result != nil && ((forall j int :: 0 <= j && j < len(steps) ==> steps[j] != nil) ==> len(result.steps) == len(steps) && (forall j int :: 0 <= j && j < len(steps) ==> result.steps[j] == steps[j]))
 //@ func NewStepAmalgamated
 //@   property C10 C16
-//@   ensures [fields_as_given] result != nil && result.name == name && result.steps == steps
+//@   ensures [fields_as_given] result != nil && result.name == name && ((forall j int :: 0 <= j && j < len(steps) ==> steps[j] != nil) ==> len(result.steps) == len(steps) && (forall j int :: 0 <= j && j < len(steps) ==> result.steps[j] == steps[j]))
 //@ func NewStepCodeGenerator
 //@   property C10
 //@   ensures [fields_as_given] result != nil && result.printer == printer && result.builder == builder && result.outputFile == outputFile
